@@ -157,6 +157,11 @@ def cmp_walk(ctx, trace, outcome, exp, mode):
         elif e[0] == "warning":
             ok = a[0] == "emit" and type(a[1]).__name__ == "WarningEvent" and a[1].error is e[1]
             g[k] = (ok, f"expected a warning wrapping {e[1]!r}, got {safe_repr(a)}")
+            snap0 = getattr(e[1], "_pyvc_snap", None)
+            if ok and snap0 is not None:
+                snap1 = ctx.ghost.get("emit_snap", {}).get(id(a[1]))
+                diff = [kk for kk in snap0 if snap1 is None or snap1.get(kk) != snap0[kk]]
+                g[k + "/says-what-the-error-said-when-it-was-raised"] = (not diff, f"changed between the raise and the warning: {[(kk, snap0[kk], (snap1 or {}).get(kk)) for kk in diff[:3]]}")
         elif e[0] == "needs":
             g[k] = a[0] == "needs"
         else:
@@ -165,6 +170,13 @@ def cmp_walk(ctx, trace, outcome, exp, mode):
     if eo[0] == "raise":
         ok = outcome[0] == "raise" and outcome[1].exc is eo[1]
         g["outcome/propagates-the-callee-error-unchanged"] = (ok, f"actual {safe_repr(outcome)} expected raise of {eo[1]!r}")
+        snap0 = getattr(eo[1], "_pyvc_snap", None)
+        if ok and snap0 is not None:
+            from contracts.walker_stubs import error_snapshot
+
+            snap1 = error_snapshot(eo[1])
+            diff = [kk for kk in snap0 if snap1.get(kk) != snap0[kk] and kk != "bytes_remaining"]
+            g["outcome/the-propagated-error-says-what-it-said-when-it-was-raised"] = (not diff, f"changed on the way up: {[(kk, snap0[kk], snap1.get(kk)) for kk in diff[:3]]}")
     elif eo[0] == "raise-class":
         ok = outcome[0] == "raise" and type(outcome[1].exc).__name__ == eo[1]
         g["outcome/raises"] = (ok, f"actual {safe_repr(outcome)} expected {eo[1]}")
